@@ -787,6 +787,10 @@ def monitor_std_vs_parameters(ctx):
             pp.create_pipe(na, 0, 1, nm, 2.0, **common)
             kwp = {k: par[k] for k in ("inner_diameter_mm", "outer_diameter_mm", "k_mm", "u_w_per_m2k") if
                    k in par and not (isinstance(par[k], float) and math.isnan(par[k]))}
+            umk = par.get("u_w_per_mk", float("nan"))
+            if "u_w_per_m2k" not in kwp and isinstance(umk, float) and not math.isnan(umk):
+                # documented conversion of a per-length value (heat types): u per outer surface
+                kwp["u_w_per_m2k"] = umk / (par["outer_diameter_mm"] * math.pi) * 1000.
             pp.create_pipe_from_parameters(nb, 0, 1, 2.0, **kwp, **common)
             ctx.case({"std_vs_parameters": nm, "variant": variant}, True)
             ctx.count("std_vs_parameters")
